@@ -236,8 +236,14 @@ class Ctx:
         return ok
 
     # ------------------------------------------------------------------ K7 followed-by
-    def followed_by(self, rule, key, f, a_blocks, b_blocks, what):
-        """no path from any A block to a success return avoids all B blocks"""
+    def followed_by(self, rule, key, f, a_blocks, b_blocks, what, assume=()):
+        """no path from any A block to a success return avoids all B blocks (assume: matchers whose returned arm is
+        excluded by hypothesis)"""
+        removed = []
+        for am in assume:
+            for (c, arm) in self.find_conds(f, am):
+                if arm in c.arms:
+                    removed.append(self.edge(c, arm))
         if not a_blocks:
             self.rep.ob(rule, key, False, 'site A for "%s" not found in %s (fail closed)' % (what, f.id), self.loc(f))
             return False
@@ -245,7 +251,7 @@ class Ctx:
         for a in a_blocks:
             succs = [t for (t, _l) in f.succ[a]]
             starts = succs if a not in b_blocks else []
-            if f.ok_returns_from(starts, blocked=set(b_blocks)):
+            if f.ok_returns_from(starts, blocked=set(b_blocks), removed=removed):
                 bad.append(a)
         self.rep.need(rule, key, not bad, '%s in %s: a success return is reachable from block(s) %s without passing the required follow-up' % (what, f.id, bad),
                       self.loc(f, (bad or a_blocks)[0]), {'rule': rule, 'fn': f.id, 'A_blocks': a_blocks[:6], 'B_blocks': sorted(b_blocks)[:6], 'what': what})
@@ -333,12 +339,13 @@ class Ctx:
         for c in sites:
             a0 = c.args[0]
             acc = None
+            accff = None
             if a0[0] in ('m', 'c') and not a0[1][1]:
                 mr = getattr(f, '_mutref', {}).get(a0[1][0])
                 if mr:
-                    acc = mr[0]
-            if acc is None:
-                continue
+                    acc, accff = mr
+            if acc is None or accff is not None:
+                continue     # accumulating into a field of a larger value: its other definitions are not re-initialisations
             for d in f.defs.get(acc, []):
                 if d[0] == '=' and not d[3][1]:
                     at = self.N.rvalue(f, d[4])
@@ -354,6 +361,21 @@ class Ctx:
             self.rep.ob(rule, key, True, '%s: accumulated with += at %d site(s)' % (what, len(sites)), sites[0].where,
                         {'rule': rule, 'fn': f.id, 'what': what, 'sites': [c.where for c in sites]})
         return ok
+
+    def has_bin(self, f, op, a_pats, b_pats):
+        """a comparison `A op B` computed as a value (closure predicate returning the bool) in f or its closures"""
+        for g in self.prog.family(f):
+            for b in g.blocks:
+                for st in b['s']:
+                    if st[0] == '=' and st[2][0] == 'bin' and norm_op(st[2][1]) == op:
+                        if has_all(self.S.operand(g, st[2][2]), a_pats) and has_all(self.S.operand(g, st[2][3]), b_pats):
+                            if not expr_ops(self.prog, g, st[2][2]) - {('V', 0)} and not {o for o in expr_ops(self.prog, g, st[2][3]) if o[0] == 'OP'}:
+                                return True
+            for c in conds(g, self.S):
+                t = match_rel(c, op.lower(), a_pats, b_pats)
+                if t is not None and c.rel == op.lower() and not getattr(c, 'opsA', None) and not getattr(c, 'opsB', None):
+                    return True
+        return False
 
     # ------------------------------------------------------------------ K10 argument atoms
     def arg_has(self, rule, key, call, idx, pats, what, narrow=True, forbid=()):
